@@ -9,7 +9,8 @@
    Structure (entities, component kinds): Properties/C03S.v, Properties/C03E.v.  Here: values.
    Files: Repl/ValSpec.v (definitions), Repl/ValSnap_proofs.v, Repl/ValHist_proofs.v (server history),
    Repl/ValClient_proofs.v + Repl/ValCli_proofs.v (client half), Repl/ValServer_proofs.v + Repl/ValSrv_proofs.v +
-   Repl/ValFrame_proofs.v (server half), Repl/ValE2E_proofs.v (whole-system runs).
+   Repl/ValFrame_proofs.v (server half), Repl/ValE2E_proofs.v (whole-system runs), Repl/ValSettle_proofs.v (the
+   lossless settle phase of Repl/Converge.v establishes the premises of the convergence theorem).
 
    Scope ([script_scope], Repl/ValE2E_proofs.v), for runs `Sys.run (sys_init cfg n) script = Ok y`, policy PAll:
      script_okm    legal deliveries, single session (no StStop / StDisconnect), no SMap        (as C03E)
@@ -35,7 +36,7 @@ From RV Require Import Lib.Res Repl.ClientTicks Repl.World Vis.Visibility Repl.S
   Repl.StructSpec Repl.Client Repl.Sys Repl.Ack_proofs Repl.Converge Repl.Witness
   Repl.ClientStructSpec Repl.ClientStruct_proofs Repl.StructE2E_proofs Repl.StructE2EMut_proofs
   Repl.ValSpec Repl.ValSnap_proofs Repl.ValHist_proofs Repl.ValClient_proofs Repl.ValServer_proofs
-  Repl.ValCli_proofs Repl.ValSrv_proofs Repl.ValFrame_proofs Repl.ValE2E_proofs Tick.ConfirmHistory.
+  Repl.ValCli_proofs Repl.ValSrv_proofs Repl.ValFrame_proofs Repl.ValE2E_proofs Repl.ValSettle_proofs Tick.ConfirmHistory.
 Open Scope N_scope.
 
 (* ---- the scope ---- *)
@@ -102,6 +103,43 @@ Theorem C02E_converged : forall cfg0 nclients, cfg_policy cfg0 = PAll -> forall 
   forall e k, cview c e k = option_map cv_nat (sview (y_server y) e k).
 Proof. exact e2e_converged. Qed.
 
+(* ---- C01 in the shape of the property.  One lossless round: a ticking server frame without operations, then for every
+        slot: all update messages, all mutate messages, a client frame, all acknowledgements
+        ([ValSettle_proofs.settle_round slots]; the round of Repl/Converge.v is [settle_round (slots y)]).
+        After two rounds the premises of C02E_converged hold for every client that was connected and authorized before
+        (`live`): round 1 sends what is missing and brings every acknowledgement back, the frame of round 2 finds every
+        entity acknowledged and sends nothing, round 2 empties the queues again.  The scope is the scope of the
+        whole script, settle steps included (they take two ticks and register mutate messages). ---- *)
+Theorem C02E_settle_premises : forall cfg0 nclients, cfg_policy cfg0 = PAll -> forall body slots sl y,
+  let rounds := ValSettle_proofs.settle_round slots ++ ValSettle_proofs.settle_round slots in
+  script_scope cfg0 nclients (body ++ rounds) -> run (sys_init cfg0 nclients) (body ++ rounds) = Ok y ->
+  In sl slots -> (exists yb, run (sys_init cfg0 nclients) body = Ok yb /\ live yb sl) ->
+  exists c cl, al_get sl (y_clients y) = Some c /\ cl_status c = Connected /\
+    In cl (sv_clients (y_server y)) /\ sc_slot cl = sl /\ sc_authorized cl = true /\
+    l_upd (get_link y sl) = [] /\ cl_inbox_upd c = [] /\ quiescent_for (y_server y) cl /\ sv_removed_events (y_server y) = [].
+Proof. exact settle_premises. Qed.
+
+Theorem C02E_settles : forall cfg0 nclients, cfg_policy cfg0 = PAll -> forall body slots sl y,
+  let rounds := ValSettle_proofs.settle_round slots ++ ValSettle_proofs.settle_round slots in
+  script_scope cfg0 nclients (body ++ rounds) -> run (sys_init cfg0 nclients) (body ++ rounds) = Ok y ->
+  In sl slots -> (exists yb, run (sys_init cfg0 nclients) body = Ok yb /\ live yb sl) ->
+  exists c cl, al_get sl (y_clients y) = Some c /\ cl_status c = Connected /\
+    In cl (sv_clients (y_server y)) /\ sc_slot cl = sl /\ sc_authorized cl = true /\
+    struct_equiv (client_struct c) (struct_of (y_server y)) /\
+    forall e k, cview c e k = option_map cv_nat (sview (y_server y) e k).
+Proof. exact e2e_settles. Qed.
+
+(* ... with the settle phase of Repl/Converge.v (the one of the statement of C01) *)
+Theorem C02E_settle_converges : forall cfg0 nclients body yb y sl, cfg_policy cfg0 = PAll ->
+  let rounds := ValSettle_proofs.settle_round (Converge.slots yb) ++ ValSettle_proofs.settle_round (Converge.slots yb) in
+  script_scope cfg0 nclients (body ++ rounds) ->
+  run (sys_init cfg0 nclients) body = Ok yb -> Converge.settle 2 yb = Ok y -> live yb sl ->
+  exists c cl, al_get sl (y_clients y) = Some c /\ cl_status c = Connected /\
+    In cl (sv_clients (y_server y)) /\ sc_slot cl = sl /\ sc_authorized cl = true /\
+    struct_equiv (client_struct c) (struct_of (y_server y)) /\
+    forall e k, cview c e k = option_map cv_nat (sview (y_server y) e k).
+Proof. exact e2e_settle_converges. Qed.
+
 Print Assumptions C02E_scope.
 Print Assumptions C02E_regs_bound.
 Print Assumptions C02E_server_history.
@@ -110,6 +148,9 @@ Print Assumptions C02E_truthful.
 Print Assumptions C02E_truthful_exact.
 Print Assumptions C02E_ack_sound.
 Print Assumptions C02E_converged.
+Print Assumptions C02E_settle_premises.
+Print Assumptions C02E_settles.
+Print Assumptions C02E_settle_converges.
 
 (* ================================================================== *)
 (* the statements are not vacuous                                     *)
@@ -132,14 +173,6 @@ Definition ex_val : list step :=
    StDeliver 0 true 1 All; StCFrame 0 [];
    StDeliver 0 false 0 All;
    sfr true []].
-
-Lemma scope_by_bound cfg0 n script :
-  script_okm script = true -> script_vals script = true -> no_tick0 script = true -> tick_frames script < 2 ^ 31 ->
-  regs_all (sys_init cfg0 n) script < 2 ^ 16 -> script_scope cfg0 n script.
-Proof.
-  intros H1 H2 H3 H4 H5. split; [exact H1|]. split; [exact H2|]. split; [exact H3|]. split; [exact H4|].
-  intros slot. eapply N.le_lt_trans; [apply regs_of_le_all|exact H5].
-Qed.
 
 Example C02E_ex_scope : script_scope ex_cfg 1 ex_val.
 Proof. apply scope_by_bound; vm_compute; reflexivity. Qed.
@@ -227,6 +260,26 @@ Proof.
   assert (Hin : In cl (sv_clients (y_server y))) by (rewrite Ecl; left; reflexivity).
   destruct (C02E_converged ex_cfg 1 eq_refl ex_val y 0 c cl C02E_ex_scope E Ec Q1 Hin Q2 Q3 Q4 Q5 Q6 Q7) as [A B].
   split; [exact A|]. split; [exact B|]. split; [exact Q8|exact Q9].
+Qed.
+
+(* C02E_settle_converges at the intermediate moment: the client holds the snapshot of tick 1, a mutate message was lost,
+   two are in flight, an acknowledgement is on its way; two rounds of the settle phase later it holds the server's values *)
+Example C02E_ex_settles :
+  exists yb y c, run (sys_init ex_cfg 1) (firstn 11 ex_val) = Ok yb /\ Converge.settle 2 yb = Ok y /\ al_get 0 (y_clients y) = Some c /\
+    (forall e k, cview c e k = option_map cv_nat (sview (y_server y) e k)) /\
+    cview c 1 0 = Some (CNat 11) /\ cview c 1 1 = Some (CNat 20).
+Proof.
+  destruct (run (sys_init ex_cfg 1) (firstn 11 ex_val)) as [yb| |] eqn:E; [|vm_compute in E; discriminate|vm_compute in E; discriminate].
+  destruct (Converge.settle 2 yb) as [y| |] eqn:Es;
+    [|vm_compute in E; inversion E; subst yb; vm_compute in Es; discriminate|vm_compute in E; inversion E; subst yb; vm_compute in Es; discriminate].
+  assert (Hsl : Converge.slots yb = [0]) by (vm_compute in E; inversion E; subst yb; reflexivity).
+  assert (Hsc : script_scope ex_cfg 1 (firstn 11 ex_val ++ ValSettle_proofs.settle_round (Converge.slots yb) ++ ValSettle_proofs.settle_round (Converge.slots yb))).
+  { rewrite Hsl. apply scope_by_bound; vm_compute; reflexivity. }
+  assert (Hlive : live yb 0).
+  { vm_compute in E. inversion E; subst yb. eexists. eexists. split; [reflexivity|]. split; [reflexivity|]. split; [left; reflexivity|]. split; reflexivity. }
+  destruct (C02E_settle_converges ex_cfg 1 _ yb y 0 eq_refl Hsc E Es Hlive) as (c & cl & Hc & _ & _ & _ & _ & _ & Hv).
+  exists yb, y, c. split; [reflexivity|]. split; [exact Es|]. split; [exact Hc|]. split; [exact Hv|].
+  vm_compute in E. inversion E; subst yb. vm_compute in Es. inversion Es; subst y. vm_compute in Hc. inversion Hc; subst c. split; reflexivity.
 Qed.
 
 (* ================================================================== *)
